@@ -24,7 +24,9 @@ def seeded():
     rows = ["| seeded change | breaks | what was changed | needs, to manifest | checks run -> result |", "|---|---|---|---|---|"]
     for d in sorted(glob.glob(os.path.join(ROOT, "seeded", "*", "meta.json"))):
         sid = os.path.basename(os.path.dirname(d)); m = json.load(open(d)); r = res.get(sid, {})
-        if r.get("checks"):
+        if m.get("obsolete"):
+            out = "OBSOLETE: " + m["obsolete"]
+        elif r.get("checks"):
             out = "; ".join("%s: %s" % (c, ("CAUGHT (" + ("failing input" if any("no-failing" not in v for v in x["violations"]) else "no-failing-input-found") + ")") if x["exit"] == 1 and x["violations"] else "missed") for c, x in r["checks"].items())
         elif r.get("applied") is False: out = "patch no longer applies to the repaired tree"
         else: out = "not run yet"
